@@ -69,6 +69,7 @@ type fakeRT struct {
 	reached   map[string]chan struct{} // closed when a call starts waiting on the gate
 	attempted map[string]bool
 	shapes    map[string]bool // "id:shape" of every record that reached the broker
+	dflt      fault           // the broker's decision once a partition's script is used up (zero: ok)
 	multi     int             // produce requests that were not exactly one topic / one partition, or whose acks / compression attribute
 	// differ from the Writer's configuration (options must be passed through unchanged)
 	wantAcks  int16
@@ -182,6 +183,8 @@ func (f *fakeRT) produce(r *produce.Request) (kafka.Response, error) {
 	if q := f.faults[tp]; len(q) > 0 {
 		ft = q[0]
 		f.faults[tp] = q[1:]
+	} else if f.dflt.kind != "" {
+		ft = f.dflt
 	} else {
 		ft = fault{kind: "ok"}
 	}
@@ -309,6 +312,7 @@ type scenario struct {
 	jitterUs   int
 	wire       int // > 0: run over the real kafka.Transport against this many byte-level brokers
 	moves      []leaderMove
+	dflt       fault                    // the fake broker's decision after the scripted ones (zero value: ok)
 	viaNew     bool                     // the Writer is built by the deprecated constructor NewWriter(WriterConfig)
 	defBal     bool                     // Writer.Balancer left unset: the default round-robin (one goroutine: message j of the run goes to partition j mod n)
 	writeTO    time.Duration            // > 0: Writer.WriteTimeout
@@ -833,6 +837,26 @@ func (b *builder) viaNewWriter(i int) *scenario {
 	return sc
 }
 
+// sharedFail: many synchronous callers share every batch (BatchSize = number of callers, one message each, one
+// partition) and the broker refuses every batch with a permanent code: each completion wakes all callers of the batch at
+// once.  Every one of them must see the batch's error — a caller that reads the result before it is stored reports
+// success for a message that is not in the log.
+func (b *builder) sharedFail(i int) *scenario {
+	ncallers, rounds := 384, 5
+	sc := &scenario{name: "sharedfail" + strconv.Itoa(i), bs: ncallers, bb: 1 << 20, ma: 1 + i%2, async: false, compl: i%2 == 1, wtopic: "t",
+		timeout: 5 * time.Millisecond, nparts: map[string]int{"t": 1}, faults: map[tpKey][]fault{}, closeAt: -1,
+		dflt: fault{kind: "kerr", code: []int16{10, 87, 18}[i%3]}}
+	for c := 0; c < ncallers; c++ {
+		var calls []callSpec
+		for k := 0; k < rounds; k++ {
+			b.nextC++
+			calls = append(calls, callSpec{id: b.nextC, msgs: []msgSpec{b.mkMsg(40, "", 0, false)}})
+		}
+		sc.callers = append(sc.callers, calls)
+	}
+	return sc
+}
+
 // tinyTimeout: BatchTimeout of microseconds with BatchSize 2 and odd message counts, while every batch creation is
 // stalled inside the partition mutex: the linger timer of a batch expires while writeMessages fills and queues it and
 // opens the next batch, so the timer branch of awaitBatch runs for a batch that is no longer attached
@@ -1045,6 +1069,7 @@ type result struct {
 
 func run(sc *scenario, out *bufio.Writer) {
 	f := newFake()
+	f.dflt = sc.dflt
 	for t, n := range sc.nparts {
 		f.nparts[t] = n
 	}
@@ -1803,6 +1828,9 @@ func main() {
 	}
 	for i := 0; i < 8*extra && failedScenarios < 3; i++ {
 		run(b.viaNewWriter(i), out)
+	}
+	for i := 0; i < 2+extra/5 && failedScenarios < 3; i++ {
+		run(b.sharedFail(i), out)
 	}
 	for i := 0; i < 3+extra && failedScenarios < 3; i++ {
 		run(b.trickleFamily(i), out)
